@@ -2,6 +2,7 @@ package main
 
 import (
 	"fmt"
+	"os"
 
 	"github.com/AliceO2Group/Control/common/event"
 	"github.com/AliceO2Group/Control/common/gera"
@@ -49,6 +50,10 @@ func dump(r workflow.Role, ind string) {
 }
 
 func main() {
+	if len(os.Args) == 3 && os.Args[1] == "-gen" {
+		genMode(os.Args[2])
+		return
+	}
 	viper.Set("config_endpoint", "mock://")
 	m := gera.MakeMap[string, string]()
 	var evs []string
